@@ -46,7 +46,7 @@ fn oracle(s: &ProgScene<X>, t: &Trace) -> Vec<Violation> {
         });
     }
     // nothing taken from the stream is lost
-    let yielded = STREAM.with(|st| st.borrow().as_ref().map(|h| h.0.lock().unwrap().yielded).unwrap_or(0));
+    let yielded = STREAM.with(|st| st.borrow().as_ref().map(|h| h.0.lock().unwrap_or_else(std::sync::PoisonError::into_inner).yielded).unwrap_or(0));
     if yielded as usize != handled.len() {
         out.push(Violation {
             clause: "no-item-lost",
